@@ -83,6 +83,30 @@ func bufferWrites(p *Program, fn *ssa.Function) []string {
 }
 
 func checkC14(p *Program, r *Report) {
+	// round 7: the constructors of package gcs refuse a filter for P only when P > 32 (C14-agent7-m1: `P >= maxP` in
+	// FromBytes refused what BuildGCSFilter had produced), and BuildGCSFilter refuses for nothing but P (C13-agent7-m2: an
+	// "overflow guard" N > MaxUint32/M refused every set with N·M ≥ 2^32)
+	for _, name := range []string{"BuildGCSFilter", "FromBytes", "FromNBytes", "FromPBytes", "FromNPBytes"} {
+		gf := p.Func("gcs", name)
+		if gf == nil {
+			continue
+		}
+		var pp *ssa.Parameter
+		for _, pa := range gf.Params {
+			if bt, ok := pa.Type().Underlying().(*types.Basic); ok && bt.Kind() == types.Uint8 {
+				pp = pa
+			}
+		}
+		if pp == nil {
+			continue
+		}
+		pv := ssa.Value(pp)
+		refusalsOutside(p, r, "C14.range", gf, func(v ssa.Value) bool { return v == pv }, func(lc *LinCtx) (Lin, bool) { return lc.Lin(pv), true }, 0, 32, "0..32")
+		if name == "BuildGCSFilter" {
+			gcsBuildRefusals(p, r, "C14.range", gf, pp)
+		}
+	}
+	r.Floor("C14.range", 2)
 	// round 6 (systematic): no unguarded mutable package-level state behind this property's functions (§2.9)
 	sharedStateRule(p, r, NewEffects(p), "C14.shared", []string{"gcs/gcs.go", "gcs/builder/builder.go"})
 	r.Floor("C14.shared", 0)
@@ -303,6 +327,19 @@ func checkC14(p *Program, r *Report) {
 	} else {
 		cname := FnName(content)
 		_, txIdx, _ := rangeLoopOver(content, "Transactions")
+		// round 7 (C14-agent7-m2): every transaction, input and output is looked at — the loops over them are left only
+		// when the list is exhausted (a `break` on the first empty script dropped every later output)
+		for _, fld := range []string{"Transactions", "TxIn", "TxOut"} {
+			hs, _ := rangeLoopsOver(content, fld)
+			for _, h := range hs {
+				ex := earlyLoopExits(content, h)
+				how := "no break / return inside the loop"
+				if len(ex) > 0 {
+					how = "the loop is also left at " + p.Pos(p.InstrPos(lastInstr(ex[0])))
+				}
+				r.Add("C14.content", cname, "the loop over "+fld+" visits every element", p.InstrPos(h.Instrs[0]), len(ex) == 0, how)
+			}
+		}
 		var nIn, nOut int
 		for _, b := range content.Blocks {
 			for _, in := range b.Instrs {
@@ -382,6 +419,26 @@ func checkC14(p *Program, r *Report) {
 		}
 		r.Add("C14.content", "builder.(*GCSBuilder)", "entries are de-duplicated through a map keyed by the entry bytes", content.Pos(), okMap, "data[string(entry)] = struct{}{}")
 		c14builderOwnsEntries(p, r)
+		// round 7 (C14-agent7-m3): every parameter of an exported constructor / option of package builder is used — a
+		// WithKeyPM that forwards DefaultM instead of its m argument builds a filter no reader with (p, m) can query
+		for _, bf := range p.Funcs {
+			if bf.Pkg != p.Pkg("gcs/builder") || bf.Parent() != nil || bf.Object() == nil || !bf.Object().Exported() || len(bf.Blocks) == 0 {
+				continue
+			}
+			for _, pa := range bf.Params {
+				used := false
+				for _, ref := range *pa.Referrers() {
+					if _, isDbg := ref.(*ssa.DebugRef); !isDbg {
+						used = true
+					}
+				}
+				if pa.Name() == "_" {
+					continue
+				}
+				r.Add("C14.forward", FnName(bf), "parameter "+pa.Name()+" is used", pa.Pos(), used, "the argument is accepted and ignored: the caller's value never reaches the builder")
+			}
+		}
+		r.Floor("C14.forward", 10)
 		// round 6 (C14-agent6-m3): "a filter rebuilt from [a serialisation] … answers every query identically" for as long
 		// as it lives: the rebuilt filter keeps its own copy of the bytes (C20's construction clause for gcs.Filter)
 		r.Borrow("C20", func(o *Ob) (string, bool) {
